@@ -41,7 +41,8 @@
 EXTENDS Integers, Sequences, FiniteSets, TLC, Json
 
 CONSTANTS Mode,       \* "create" | "seq"
-          Picks,      \* create: set of case indices to emit
+          Picks,      \* create: set of case indices to emit (PicksAll, PicksStride or an explicit set)
+          Stride, Offset, \* create: PicksStride = every Stride-th case starting at Offset
           Depth,      \* seq: number of steps after the create
           MaskPaths,  \* seq: the universe of mask paths (subset of AllPaths)
           NewIds,     \* seq: ids of the requests used by updates
@@ -124,6 +125,8 @@ RECURSIVE ProdTo(_)
 ProdTo(n) == IF n = 0 THEN 1 ELSE Radix[n] * ProdTo(n - 1)
 NCreate == ProdTo(Len(Radix))
 Digit(i, n) == ((i \div ProdTo(n - 1)) % Radix[n]) + 1
+PicksAll == 0..(NCreate - 1)
+PicksStride == {i \in PicksAll : i % Stride = Offset}
 Decode(i) ==
   [labels |-> LabelC[Digit(i, 1)], exp |-> ExpC[Digit(i, 2)], ret |-> RetC[Digit(i, 3)],
    ord |-> OrdC[Digit(i, 4)], retry |-> RetryC[Digit(i, 5)], push |-> PushC[Digit(i, 6)],
@@ -143,7 +146,7 @@ Reqs == <<
   R("many",    "huge",   "huge",   TRUE,  TRUE,  "huge",   "huge",   "endpoint", "set",  TRUE,  "t3", 100, "many"),
   R("unicode", "empty",  "small",  TRUE,  TRUE,  "small",  "absent", "endpoint", "set",  TRUE,  "t2", 1,   "unicode"),
   R("small",   "huge",   "zero",   FALSE, TRUE,  "absent", "huge",   "empty",    "none", TRUE,  "t2", 0,   "small"),
-  R("unicode", "small",  "huge",   FALSE, TRUE,  "absent", "absent", "absent",   "set",  TRUE,  "",   5,   "many")
+  R("unicode", "small",  "huge",   FALSE, TRUE,  "absent", "absent", "empty",    "set",  TRUE,  "",   5,   "many")
 >>
 
 VARIABLES S, hist
